@@ -192,8 +192,22 @@ pub fn cases_for(prop: &str, tier: &str, seed: u64, shard: (usize, usize)) -> (V
                 }
                 tmp.push(Case { id, family: "shared-state".into(), schema: synth, op: "validate13".into(), doc: Some(d.print()), extra: vec![], note: String::new() });
             }
+            let mut uon_last: std::collections::HashSet<String> = std::collections::HashSet::new();
+            for (i, d) in crate::families::multi_error_cases(&mut rng, budget(tier, 800, 15000) / shard.1).into_iter().enumerate() {
+                let id = format!("me{}x{}", shard.0, i);
+                if i % 2 == 0 {
+                    uon_last.insert(id.clone());
+                }
+                tmp.push(Case { id, family: "multi-error".into(), schema: synth, op: "validate13".into(), doc: Some(d.print()), extra: vec![], note: String::new() });
+            }
             for mut c in tmp {
                 let mut plan = if defaults.contains(&c.id) { crate::op_validate::default_codes() } else { random_plan(&mut rng) };
+                if uon_last.contains(&c.id) {
+                    // every rule that reports after the walk gets a turn at the END of a plan whose earlier rules reported
+                    let late = *rng.pick(&["UniqueOperationNames", "UniqueFragmentNames", "NoUnusedFragments", "NoUndefinedVariables", "NoUnusedVariables", "VariablesInAllowedPosition"]);
+                    plan.retain(|r| *r != late);
+                    plan.push(late);
+                }
                 if plan.is_empty() {
                     plan = vec!["KnownTypeNames"];
                 }
@@ -308,9 +322,9 @@ pub fn cases_for(prop: &str, tier: &str, seed: u64, shard: (usize, usize)) -> (V
                 let mut si_idx = rng.below(pool.len() - 1);
                 // valid, mutated and grammar-random documents; every 4th: a structured merge case
                 let structured = i % 4 == 3;
-                let source = rng.below(4);
+                let source = rng.below(5);
                 if structured {
-                    si_idx = pool.iter().position(|s| s.name == if source == 2 { "minimal" } else { "synthetic" }).unwrap();
+                    si_idx = pool.iter().position(|s| s.name == match source { 2 => "minimal", 4 => "lonely", _ => "synthetic" }).unwrap();
                 }
                 let si = &pool[si_idx];
                 let gdoc: GDoc = match i % 4 {
@@ -321,6 +335,11 @@ pub fn cases_for(prop: &str, tier: &str, seed: u64, shard: (usize, usize)) -> (V
                             all[rng.below(all.len())].clone()
                         }
                         2 => graph4_doc(&mut rng),
+                        // a subscription whose root type implements several interfaces, fragments on each of them
+                        4 => {
+                            let tc = *rng.pick(&["Named", "Node", "Subscription"]);
+                            crate::families::subscription_graph_cases_on(&mut rng, 1, tc, "name", "other").pop().unwrap()
+                        }
                         // several operations and fragments sharing variables and, now and then, NAMES
                         _ => crate::families::variable_graph_cases(&mut rng, 3).pop().unwrap(),
                     },
@@ -333,7 +352,9 @@ pub fn cases_for(prop: &str, tier: &str, seed: u64, shard: (usize, usize)) -> (V
                     _ => Gen::new(rng.fork(), si, GenCfg::mostly_valid()).gen_doc(),
                 };
                 let mut kind = crate::rewrite::REWRITES[(i + shard.0) % crate::rewrite::REWRITES.len()];
-                if structured && source == 3 {
+                if structured && source == 4 {
+                    kind = *rng.pick(&["schema-perm-members", "schema-perm-definitions", "perm-selections", "inline-spread"]);
+                } else if structured && source == 3 {
                     kind = *rng.pick(&["rename-fragments", "rename-operations", "rename-variables", "perm-definitions", "perm-variables"]);
                 } else if structured && rng.pct(60) {
                     // the structured merge cases are about order: permute selections / definitions
@@ -491,6 +512,17 @@ pub fn cases_for(prop: &str, tier: &str, seed: u64, shard: (usize, usize)) -> (V
             for v in &conformant {
                 if let Some(j) = J::from_value(v) {
                     push(&mut cases, "hand-made-conformant", minimal, &j, "null", false, &mut n);
+                }
+            }
+            // RAW TEXTS around a valid result (byte-level reading is outside the model: these are compared
+            // on the implementation only — string parse vs every chunking, I/O faults, round trip): a
+            // byte order mark, leading / trailing white space, trailing garbage, truncation, emptiness
+            if shard.0 == 0 {
+                let good = "{\"__schema\":{\"queryType\":{\"name\":\"Q\"},\"types\":[{\"kind\":\"SCALAR\",\"name\":\"Q\",\"description\":\"\u{feff}x\u{1F600}\"}],\"directives\":[]}}";
+                for (i, text) in [format!("\u{feff}{}", good), format!("\u{feff}\u{feff}{}", good), format!("  \n{}", good), format!("{}\n \t", good), format!("{} x", good),
+                                  format!("{}{}", good, good), good[..good.len() - 1].to_string(), String::new(), " ".to_string(), "\u{feff}".to_string(), format!("\u{feff} {}", good)].into_iter().enumerate() {
+                    cases.push(Case { id: format!("raw{}", i), family: "raw-text".into(), schema: minimal, op: "introspect".into(), doc: Some(text),
+                        extra: vec!["(policy null)".to_string(), "(pristine f)".to_string(), "null".to_string()], note: "raw-text".into() });
                 }
             }
             // the bundled real-world results
@@ -853,6 +885,9 @@ pub fn exhaustive_family(prop: &str, tier: &str, rng: &mut Rng, shard: (usize, u
             }
             for d in small_object_cases() {
                 docs.push(("small-objects".to_string(), d.print()));
+            }
+            for d in enum_pair_cases() {
+                docs.push(("enum-pairs".to_string(), d.print()));
             }
             if prop != "C08" {
                 // context answers around arguments: every wrapper / unknown directive combination, and
